@@ -32,6 +32,15 @@ def cases(tier):
                     out.append(dict(name="%s_%s_%s_pre%d" % (pi[:2], added, "+".join(a[:3] for a in aggs), pre_unexp), pi=pi,
                                     alphas=alphas, estimands=["turnout"], units=P.standard_units(nrep, 2, extra, cls=True),
                                     added=added, aggregates=aggs, cut_calibration=True, boot_sigma_deterministic=True, weight=nrep))
+        # precinct unit types: ids with more "_" components than usual (a split precinct)
+        out.append(dict(name="%s_precinct_split" % pi[:2], pi=pi, alphas=alphas, estimands=["turnout"],
+                        units=P.standard_units(nrep, 2, cls=True), added="c1_p7_2", unit_type="precinct",
+                        aggregates=["postal_code", "county_fips", "unit"], cut_calibration=True, boot_sigma_deterministic=True,
+                        weight=nrep))
+        out.append(dict(name="%s_precinct_district_split_Y" % pi[:2], pi=pi, alphas=alphas, estimands=["turnout"],
+                        units=P.standard_units(nrep, 2, district=True), added="d1_c1_p7_2", office="Y", unit_type="precinct-district",
+                        aggregates=["postal_code", "district", "county_fips", "unit"], cut_calibration=True,
+                        boot_sigma_deterministic=True, weight=nrep + 3))
         for added in ("d1_c1_new0", "d1_c9_new0", "d9_c9_new0"):
             out.append(dict(name="%s_%s_Y" % (pi[:2], added), pi=pi, alphas=alphas, estimands=["turnout"],
                             units=P.standard_units(nrep, 2, district=True), added=added, office="Y", unit_type="county-district",
